@@ -44,7 +44,7 @@ BUILTINS = {
     "True", "False", "None", "Exception", "ValueError", "KeyError", "TypeError", "format", "vars", "issubclass",
 }  # fmt: skip
 
-IDENTITY_WRAPPERS = {"bytes", "bytearray"}
+IDENTITY_WRAPPERS = {"bytes", "bytearray", "memoryview"}
 
 
 def _hashable(v):
@@ -183,6 +183,7 @@ class Terms:
     def __init__(self, prog: Program, resolver: Resolver, flow, inline_depth: int = 3, no_inline=()):
         self.no_inline = set(no_inline)
         self.prog = prog
+        _PROG[0] = prog
         self.res = resolver
         self.flow = flow
         self.inline_depth = inline_depth
@@ -252,6 +253,10 @@ class Terms:
             if not terms:
                 return ("unknown", f"undefined:{name}")
             if len(terms) == 1:
+                if terms[0] == ("list", ()) and len(rd) == 1 and rd[0][1].kind == "assign":
+                    built = self._appended(cfg, rd[0][0], nid, name, env, depth, guard)
+                    if built is not None:
+                        return built
                 return terms[0]
             return ("phi", tuple(terms))
         # closure variable of an enclosing function
@@ -270,6 +275,139 @@ class Terms:
                 return ("phi", tuple(terms)) if terms else ("unknown", f"closure:{name}")
             g = g.parent
         return self._global(f, name)
+
+    def _unpassed_default(self, f: Func, pname: str):
+        """A parameter with a constant default that no call in the package passes (positionally, by keyword, through * / **):
+        inside the package it always has that default -> the constant term, else None.  (`open(.., tag_length=4)` added to a
+        function whose callers are unchanged.)"""
+        cache = self.__dict__.setdefault("_upd_cache", {})
+        key = (f.qualname, pname)
+        if key in cache:
+            return cache[key]
+        cache[key] = None
+        node = f.node
+        if isinstance(node, ast.Lambda) or f.name.startswith("__") and f.name != "__init__":
+            return None
+        a = node.args
+        pos = [x.arg for x in a.posonlyargs + a.args]
+        kwonly = [x.arg for x in a.kwonlyargs]
+        if pname in pos:
+            pi = pos.index(pname)
+            di = pi - (len(pos) - len(a.defaults))
+            dflt = a.defaults[di] if di >= 0 else None
+        elif pname in kwonly:
+            pi = None
+            dflt = a.kw_defaults[kwonly.index(pname)]
+        else:
+            return None
+        if dflt is None:
+            return None
+        try:
+            dv = self.prog.try_const(dflt, f.module, f.cls, NotConst)
+        except Exception:  # noqa: BLE001
+            return None
+        if dv is NotConst or not isinstance(dv, (int, bytes, str, bool, type(None))):
+            return None
+        # index of calls by the name they use, built once
+        idx = self.__dict__.get("_call_index")
+        if idx is None:
+            idx = {}
+            for g in self.prog.package_functions():
+                if isinstance(g.node, ast.Lambda):
+                    continue
+                for c in ast.walk(g.node):
+                    if isinstance(c, ast.Call):
+                        nm = c.func.attr if isinstance(c.func, ast.Attribute) else c.func.id if isinstance(c.func, ast.Name) else None
+                        if nm:
+                            idx.setdefault(nm, []).append((g, c))
+            self.__dict__["_call_index"] = idx
+        names = {f.name}
+        if f.name == "__init__" and f.cls is not None:
+            names |= {f.cls.qualname.rsplit(".", 1)[-1], "__init__", "super"}
+        off = 1 if (f.cls is not None and "staticmethod" not in f.decorators) else 0
+        n_calls = 0
+        for nm in names:
+            for g, c in idx.get(nm, []):
+                try:
+                    callees = self.res.resolve_call(g, c, record=False)
+                except Exception:  # noqa: BLE001
+                    callees = []
+                direct = f.qualname in callees
+                if not direct and not (any(x.startswith("?") for x in callees) or not callees):
+                    continue  # resolved to something else
+                n_calls += 1
+                if any(k.arg in (pname, None) for k in c.keywords) or any(isinstance(x, ast.Starred) for x in c.args):
+                    return None
+                if pi is not None:
+                    eff = pi - (off if isinstance(c.func, ast.Attribute) or f.name == "__init__" else 0)
+                    if len(c.args) > eff:
+                        return None
+        # a function whose reference escapes (returned, passed as a callback, stored in a table, bound by partial) may be called
+        # from anywhere with any arguments: every mention of its name in the package must be the callee of a call
+        if f.name == "__init__":
+            return None
+        esc = self.__dict__.get("_escaping_names")
+        if esc is None:
+            esc = set()
+            for m in self.prog.modules.values():
+                callees_ = {id(c.func) for c in ast.walk(m.tree) if isinstance(c, ast.Call)}
+                for x in ast.walk(m.tree):
+                    if isinstance(x, (ast.Attribute, ast.Name)) and isinstance(x.ctx, ast.Load) and id(x) not in callees_:
+                        esc.add(x.attr if isinstance(x, ast.Attribute) else x.id)
+            self.__dict__["_escaping_names"] = esc
+        if f.name in esc:
+            return None
+        cache[key] = _const(dv)
+        return cache[key]
+
+    def _appended(self, cfg: CFG, def_nid: int, use_nid: int, name: str, env, depth, guard):
+        """`x = []` followed, on every path to the use, by the same straight-line `x.append(E)` statements (none in a loop the
+        definition is not in, nothing else done to x in the function): the list of those E, in order.  None otherwise."""
+        apps = []
+        dn = cfg.nodes[def_nid]
+        loops_of = lambda n_: tuple(id(fr[1]) for fr in n_.frames if fr[0] == "loop")  # noqa: E731
+        for n in cfg.nodes:
+            a = n.ast
+            if a is None or n.id in (def_nid,):
+                continue
+            roots = [a] if n.kind == "stmt" else [e for e in n.exprs if e is not None]
+            for r in roots:
+                for x in ast.walk(r):
+                    if isinstance(x, ast.Name) and x.id == name:
+                        # every mention of x: the receiver of a whole-statement append, or a plain read at / after the use
+                        ok_app = n.kind == "stmt" and isinstance(a, ast.Expr) and isinstance(a.value, ast.Call) and isinstance(a.value.func, ast.Attribute) \
+                            and a.value.func.value is x and a.value.func.attr == "append" and len(a.value.args) == 1 and not a.value.keywords \
+                            and not isinstance(a.value.args[0], ast.Starred) and not any(isinstance(y, ast.Name) and y.id == name for y in ast.walk(a.value.args[0]))
+                        if ok_app:
+                            if n not in apps:
+                                apps.append(n)
+                        elif isinstance(x.ctx, ast.Load) and n.id != use_nid and (n.id == def_nid or cfg.find_path(def_nid, n.id) is None or cfg.find_path(use_nid, n.id) is not None
+                                                                                   or cfg.find_path(n.id, use_nid) is None):
+                            pass  # not between the definition and the use
+                        elif n.id == use_nid and isinstance(x.ctx, ast.Load):
+                            pass
+                        else:
+                            return None
+        if not apps or len(apps) > 16:
+            return None
+        for n in apps:
+            if loops_of(n) != loops_of(dn):
+                return None
+            if cfg.find_path(def_nid, use_nid, avoid_nodes=[n.id]) is not None or n.id == use_nid:
+                return None
+        path = cfg.find_path(def_nid, use_nid)
+        if path is None:
+            return None
+        order = [h[0] for h in path]
+        if any(n.id not in order for n in apps):
+            return None
+        apps.sort(key=lambda n: order.index(n.id))
+        # an append that could run twice between definition and use (a cycle through it) is not a straight line
+        for n in apps:
+            for d_, l_, _x in n.succ:
+                if l_ != "x" and (d_ == n.id or cfg.find_path(d_, n.id, avoid_nodes=[def_nid, use_nid]) is not None):
+                    return None
+        return ("list", tuple(self._t(cfg, n.id, n.ast.value.args[0], env, depth, guard) for n in apps))
 
     def _global(self, f: Func, name: str) -> tuple:
         p = self.prog
@@ -291,7 +429,8 @@ class Terms:
         guard = guard | {key}
         k = d.kind
         if k == "param":
-            return ("param", name)
+            dv = self._unpassed_default(cfg.func, name)
+            return dv if dv is not None else ("param", name)
         if k == "assign" or k == "walrus":
             t = self._t(cfg, def_nid, d.value, env, depth, guard)
             return _project(t, d.path)
@@ -305,6 +444,8 @@ class Terms:
             return _project(("iter", it), d.path)
         if k == "with":
             t = self._t(cfg, def_nid, d.value, env, depth, guard)
+            if isinstance(d.value, ast.Call) and isinstance(d.value.func, ast.Name) and d.value.func.id == "memoryview" and len(d.value.args) == 1:
+                return _project(t, d.path)  # `with memoryview(x) as v`: a memoryview enters as itself, and reads as the bytes of x
             return _project(("enter", t), d.path)
         if k == "except":
             n = cfg.nodes[def_nid]
@@ -380,6 +521,13 @@ class Terms:
                         return _const(not t[1])
                 except Exception:
                     pass
+            if isinstance(e.op, ast.Not):
+                # negation pushed inward: not (a or b) is (not a) and (not b), not (not a) is the truth value of a (left as
+                # the double negation's operand only under another not), not (x in s) is x not in s
+                if t[0] == "bool" and t[1] in ("And", "Or"):
+                    return ("bool", "Or" if t[1] == "And" else "And", tuple(x[2] if x[0] == "unop" and x[1] == "Not" else ("unop", "Not", x) for x in t[2]))
+                if t[0] == "cmp" and len(t[1]) == 1 and t[1][0] in ("In", "NotIn", "Is", "IsNot"):
+                    return ("cmp", ({"In": "NotIn", "NotIn": "In", "Is": "IsNot", "IsNot": "Is"}[t[1][0]],), t[2])
             return ("unop", type(e.op).__name__, t)
         if isinstance(e, ast.BoolOp):
             return ("bool", type(e.op).__name__, tuple(T(v) for v in e.values))
@@ -508,6 +656,28 @@ class Terms:
             for x in args[0][1][1:]:
                 acc = _binop("Add", acc, x)
             return acc
+        # S.issuperset(xs) is all(x in S for x in xs); xs.issubset(S) likewise (xs a comprehension / map / plain iterable)
+        if fn[0] == "attr" and fn[2] in ("issuperset", "issubset") and len(args) == 1 and not kwargs and args[0][0] != "star":
+            big, small = (fn[1], args[0]) if fn[2] == "issuperset" else (args[0], fn[1])
+            cv = ("cvar", "_m")
+            if small[0] == "comp" and small[1] in ("GeneratorExp", "ListComp", "SetComp") and len(small[3]) == 1:
+                elt, gens = small[2], small[3]
+            else:
+                elt, gens = cv, ((cv, small, ()),)
+            return ("call", ("glob", "all"), (("comp", "GeneratorExp", ("cmp", ("In",), (elt, big)), gens),), (), self._site(f, e))
+        # n.to_bytes(k, order) for k in 1/2/4/8 (unsigned) is Struct("<Q" ..).pack(n): ONE spelling of "the integer as k bytes"
+        if fn[0] == "attr" and fn[2] == "to_bytes" and len(args) == 2 and args[0][0] == "const" and args[0][1] in (1, 2, 4, 8) and args[1][0] == "const" \
+                and args[1][1] in ("little", "big") and (not kwargs or kwargs == (("signed", ("const", False)),)):
+            code = {1: "B", 2: "H", 4: "L", 8: "Q"}[args[0][1]]
+            pk = ("const", StructMethod(StructConst(("<" if args[1][1] == "little" else ">") + code), "pack"))
+            folded = _fold_call(pk, (fn[1],), ())
+            return folded if folded is not None else ("call", pk, (fn[1],), (), self._site(f, e))
+        # map(f, xs) is (f(x) for x in xs); list(<generator expression>) is the list comprehension
+        if fn == ("glob", "map") and len(args) == 2 and not kwargs and not any(a[0] == "star" for a in args):
+            cv = ("cvar", "_m")
+            return ("comp", "GeneratorExp", ("call", args[0], (cv,), (), self._site(f, e)), ((cv, args[1], ()),))
+        if fn == ("glob", "list") and len(args) == 1 and not kwargs and args[0][0] == "comp" and args[0][1] == "GeneratorExp":
+            return ("comp", "ListComp") + tuple(args[0][2:])
         # struct.pack(<constant format>, a..) is Struct(<format>).pack(a..): ONE spelling of a struct packer
         if fn == ("glob", "struct.pack") and args and args[0][0] == "const" and isinstance(args[0][1], str) and not kwargs and not any(a[0] == "star" for a in args):
             fn, args = ("const", StructMethod(StructConst(args[0][1]), "pack")), args[1:]
@@ -658,6 +828,24 @@ def _binop(op, l, r) -> tuple:
         if len(out) == 1:
             return out[0]
         return ("add", tuple(out))
+    if name == "Mod" and l[0] == "const" and isinstance(l[1], bytes):
+        # b"..%b.." % x  /  % (x, y): the bytes it concatenates (only %b / %s without flags, which insert a bytes-like as it is)
+        import re as _re
+
+        pieces = _re.split(rb"(%[bs%])", l[1])
+        args = list(r[1]) if r[0] == "tuple" else [r]
+        if not any(p_[:1] == b"%" and len(p_) == 1 for p_ in pieces if p_ not in (b"%b", b"%s", b"%%")) and b"%" not in b"".join(p_ for p_ in pieces if p_ not in (b"%b", b"%s", b"%%")):
+            n_spec = sum(1 for p_ in pieces if p_ in (b"%b", b"%s"))
+            if n_spec == len(args) and n_spec:
+                acc = None
+                it = iter(args)
+                for p_ in pieces:
+                    if p_ == b"":
+                        continue
+                    piece = next(it) if p_ in (b"%b", b"%s") else _const(b"%" if p_ == b"%%" else p_)
+                    acc = piece if acc is None else _binop("Add", acc, piece)
+                if acc is not None:
+                    return acc
     if l[0] == "const" and r[0] == "const":
         try:
             a, b = l[1], r[1]
@@ -1008,7 +1196,33 @@ def _comp_element(base, i: int):
     return _subst_cvars(base[2], m)
 
 
+_PROG = [None]  # the program whose NamedTuple classes `_sub` may consult (set by Terms)
+
+
+def _from_end(bound, base):
+    """`max(len(x) - k, 0)` as a slice bound of x is `-k` (k > 0): the last k items / all but the last k, for every length"""
+    b = strip_sites(bound) if bound is not None else None
+    if b and b[0] == "call" and b[1] == ("glob", "max") and len(b[2]) == 2 and not b[3]:
+        for x, z in (b[2], b[2][::-1]):
+            if z == ("const", 0) and x[0] == "binop" and x[1] == "Sub" and x[3][0] == "const" and isinstance(x[3][1], int) and x[3][1] > 0 \
+                    and x[2] == ("call", ("glob", "len"), (strip_sites(base),), ()):
+                return ("const", -x[3][1])
+    return bound
+
+
 def _sub(base, idx) -> tuple:
+    if idx[0] == "slice" and (idx[1] is not None or idx[2] is not None):
+        lo, hi = _from_end(idx[1], base), _from_end(idx[2], base)
+        if lo is not idx[1] or hi is not idx[2]:
+            idx = ("slice", lo, hi, idx[3])
+    if base[0] == "call" and idx[0] == "const" and isinstance(idx[1], int) and _PROG[0] is not None and len(base) >= 4 and base[1][0] == "glob" and base[1][1] in _PROG[0].classes:
+        # item i of a NamedTuple built in place is its i-th field
+        c = _PROG[0].classes[base[1][1]]
+        fields = _record_fields(_PROG[0], base[1][1]) if any(b.endswith("NamedTuple") for b in c.bases) else None
+        if fields and -len(fields) <= idx[1] < len(fields):
+            fv = _record_field(_PROG[0], base, fields[idx[1]])
+            if fv is not None:
+                return fv
     if base[0] in ("tuple", "list") and idx[0] == "const" and isinstance(idx[1], int):
         if not any(x[0] == "star" for x in base[1]) and -len(base[1]) <= idx[1] < len(base[1]):
             return base[1][idx[1]]
